@@ -192,6 +192,9 @@ func (g *generator) payloadFor(d *sdef) []byte {
 		default:
 			for off := 0; off+es <= int(f.Size); off += es {
 				v := randomValue(g.rng, es)
+				if f.Num == 254 && es == 2 && g.rng.Intn(4) != 0 {
+					v = u16le(uint16(g.rng.Intn(4))) // message_index: small, repeating, in no particular order
+				}
 				if g.rng.Float64() < g.k.pInvalid {
 					copy(v, baseInvalid(idx))
 				}
